@@ -195,23 +195,31 @@ Section Inv.
     classes_step A fx w a w' = [] ->
     k_outside A fx a = false /\ k_live_cleared A fx w w' = false /\ k_unhidden A fx w w' = false /\
     k_close_revert A fx w a = false /\ k_watched_dirty A fx w a = false /\ k_stale_ref A fx w' = false /\
-    k_empty_shortcut A fx w a = false.
+    k_empty_shortcut A fx w a = false /\ k_open_text A fx w a = false.
   Proof.
     unfold classes_step. intros H.
     repeat (apply app_nil_inv in H; destruct H as [?H H]).
     repeat match goal with
            | HH : (if ?c then [_] else []) = [] |- _ => destruct c eqn:?; [discriminate HH|clear HH]
            end.
-    destruct (k_empty_shortcut A fx w a); [discriminate|]. auto 10.
+    destruct (k_open_text A fx w a); [discriminate|]. auto 12.
   Qed.
 
   (* ---------- didOpen of a known file ---------- *)
+  (* the carried text is the file's text (or the code is the one before the didOpen repair): nothing is analysed *)
+  Lemma did_open_same dk (s : server A) f t :
+    fix_didopen fx && open_differs A dk f t = false -> did_open A fx dk s f t = did_open_base A fx dk s f t.
+  Proof. intros H. unfold did_open. rewrite H. destruct (did_open_base A fx dk s f t). reflexivity. Qed.
+
+  Lemma open_differs_disk dk f t : aget dk f = Some t -> fix_didopen fx && open_differs A dk f t = false.
+  Proof. intros H. unfold open_differs. rewrite H, (ok_teqb_refl A HA). apply andb_false_r. Qed.
+
   Lemma did_open_known dk (s : server A) f t :
     fmem f (p_files (pj s)) = true -> aget (live (ds s)) f = None -> ~ In f (clean (ds s)) ->
-    did_open A fx dk s f t =
+    did_open_base A fx dk s f t =
     ({| pj := set_lru A (pj s) (frem f (p_lru (pj s))); cache := aset (cache s) f t; ds := ds s |}, []).
   Proof.
-    intros H1 H2 H3. unfold did_open. cbn [pj set_lru p_files cache ds]. rewrite H1.
+    intros H1 H2 H3. unfold did_open_base. cbn [pj set_lru p_files cache ds]. rewrite H1.
     assert (E : unmark_clean (ds s) f = ds s).
     { unfold unmark_clean, set_clean. rewrite frem_id by exact H3. destruct (ds s). reflexivity. }
     rewrite E. unfold clear_change, ahas. cbn [ds]. rewrite H2. reflexivity.
@@ -239,6 +247,7 @@ Section Inv.
     assert (Hncl : ~ In f (clean (ds (sv w)))).
     { intros H. apply fmem_in in H. rewrite (i_clean _ _ I) in H. apply fmem_false in Hnd. rewrite Hnd in H. discriminate. }
     unfold steps. cbn [fold_left fst snd step set_editor disk sv ebuf dirty].
+    rewrite (did_open_same _ _ _ _ (open_differs_disk _ _ _ Edk)).
     rewrite (did_open_known _ _ _ _ Hfin Hlive Hncl). cbn [fst snd app vapply fold_left].
     destruct I as [Ig Is Ine Ic Io Iv Icl Iidx]. constructor; cbn [disk sv pj ds cache ebuf dirty].
     - apply good_set_lru. apply (good_proj_mem_ext A (member A fx w)); [|exact Ig].
@@ -269,7 +278,7 @@ Section Inv.
       ({| pj := set_lru A (pj s) (fadd f (p_lru (pj s))); cache := aset (cache s) f t; ds := fst (insert_change (ds s) f (syn A t)) |},
        snd (insert_change (ds s) f (syn A t))).
   Proof.
-    intros H. unfold did_change. rewrite H. destruct (is_nil (syn A t)).
+    intros H. unfold did_change. rewrite H. unfold analyse_buffer. destruct (is_nil (syn A t)).
     - destruct (clear_change (ds s) f). reflexivity.
     - destruct (insert_change (ds s) f (syn A t)). reflexivity.
   Qed.
@@ -755,13 +764,13 @@ Section Inv.
 
   Lemma did_open_new dk (s : server A) f t :
     fmem f (p_files (pj s)) = false -> aget (live (ds s)) f = None -> ~ In f (clean (ds s)) ->
-    did_open A fx dk s f t =
+    did_open_base A fx dk s f t =
     let pc := handle_events A fx dk (set_lru A (pj s) (frem f (p_lru (pj s)))) [(f, KCreated)] in
     ({| pj := fst pc; cache := aset (cache s) f t;
         ds := if snd pc then fst (push_all_again (fix12a fx) (fix_unhidden fx) (ds s) (all_errs A (fst pc))) else ds s |},
      if snd pc then snd (push_all_again (fix12a fx) (fix_unhidden fx) (ds s) (all_errs A (fst pc))) else []).
   Proof.
-    intros H1 H2 H3. unfold did_open. cbn [pj set_lru p_files cache ds]. rewrite H1.
+    intros H1 H2 H3. unfold did_open_base. cbn [pj set_lru p_files cache ds]. rewrite H1.
     assert (E : unmark_clean (ds s) f = ds s).
     { unfold unmark_clean, set_clean. rewrite frem_id by exact H3. destruct (ds s). reflexivity. }
     rewrite E. cbn zeta.
@@ -787,6 +796,7 @@ Section Inv.
     assert (Hnf : ~ In f (p_files (pj (sv w)))).
     { rewrite (gp_files _ _ _ _ (i_good _ _ I)). intros H. apply dfiles_in in H. destruct H as [H _]. congruence. }
     unfold steps. cbn [fold_left fst snd step set_editor disk sv ebuf dirty].
+    rewrite (did_open_same _ _ _ _ (open_differs_disk _ _ _ Edk)).
     rewrite (did_open_new _ _ _ _ (proj2 (fmem_false _ _) Hnf) Hlive Hncl). cbn zeta. cbn [fst snd app].
     set (p0 := set_lru A (pj (sv w)) (frem f (p_lru (pj (sv w))))).
     set (pc := handle_events A fx (disk w) p0 [(f, KCreated)]).
@@ -937,17 +947,164 @@ Section Inv.
       rewrite Hsw', Hsv' in C1. rewrite Hsw' in C2. rewrite Hlive2, Hsaved2, Efg. unfold saved_of in C1, C2. split; assumption.
   Qed.
 
+  (* ---------- a document opened with a text that is not the file's (repaired code: flag fix_didopen):
+                 the server does what it does for didOpen with the file's text followed by the first didChange ---------- *)
+  Lemma adel_idem {V} (m : amap V) k : adel (adel m k) k = adel m k.
+  Proof.
+    induction m as [|[k' v] m IH]; [reflexivity|]. cbn [adel]. destruct (k' =? k) eqn:E; [exact IH|].
+    cbn [adel]. rewrite E, IH. reflexivity.
+  Qed.
+
+  Lemma aset_aset {V} (m : amap V) k v v' : aset (aset m k v) k v' = aset m k v'.
+  Proof. unfold aset. cbn [adel]. rewrite N.eqb_refl, adel_idem. reflexivity. Qed.
+
+  (* the carried text only goes into the cache *)
+  Lemma did_open_base_text dk (s : server A) f t d :
+    did_open_base A fx dk s f t =
+    ({| pj := pj (fst (did_open_base A fx dk s f d)); cache := aset (cache s) f t; ds := ds (fst (did_open_base A fx dk s f d)) |},
+     snd (did_open_base A fx dk s f d)).
+  Proof.
+    unfold did_open_base. cbn [pj cache ds set_lru p_files].
+    destruct (fmem f (p_files (pj s))).
+    - cbn [pj cache ds]. destruct (clear_change (unmark_clean (ds s) f) f). reflexivity.
+    - destruct (handle_events A fx dk _ [(f, KCreated)]) as [p1 chg]. destruct chg.
+      + rewrite !push_again_eq. cbn [pj cache ds fst snd].
+        destruct (clear_change (fst (push_all_again (fix12a fx) (fix_unhidden fx) (unmark_clean (ds s) f) (all_errs A p1))) f).
+        reflexivity.
+      + cbn [pj cache ds]. destruct (clear_change (unmark_clean (ds s) f) f). reflexivity.
+  Qed.
+
+  Lemma did_open_base_cache dk (s : server A) f t : cache (fst (did_open_base A fx dk s f t)) = aset (cache s) f t.
+  Proof. rewrite (did_open_base_text dk s f t t). reflexivity. Qed.
+
+  Lemma analyse_buffer_cache (s : server A) c f t :
+    analyse_buffer A {| pj := pj s; cache := c; ds := ds s |} f t =
+    ({| pj := pj (fst (analyse_buffer A s f t)); cache := aset c f t; ds := ds (fst (analyse_buffer A s f t)) |},
+     snd (analyse_buffer A s f t)).
+  Proof.
+    unfold analyse_buffer. cbn [pj cache ds]. destruct (is_nil (syn A t)).
+    - destruct (clear_change (ds s) f). reflexivity.
+    - destruct (insert_change (ds s) f (syn A t)). reflexivity.
+  Qed.
+
+  Lemma act_open_with_same w f t d :
+    aget (disk w) f = Some d -> teqb A d t = true -> act A fx w (AOpenWith f t) = act A fx w (AOpen f).
+  Proof.
+    intros Hd He. pose proof (ok_teqb A HA _ _ He) as E. subst t. cbn [act]. rewrite Hd.
+    destruct (aget (ebuf w) f); [reflexivity|]. rewrite He. reflexivity.
+  Qed.
+
+  Lemma act_open_with_split w f t d :
+    fix_didopen fx = true -> aget (disk w) f = Some d -> aget (ebuf w) f = None -> teqb A d t = false -> ~ In f (dirty w) ->
+    act A fx w (AOpenWith f t) =
+    (fst (act A fx (fst (act A fx w (AOpen f))) (AChange f t)),
+     snd (act A fx w (AOpen f)) ++ snd (act A fx (fst (act A fx w (AOpen f))) (AChange f t))).
+  Proof.
+    intros Hfix Hd Hb He Hnd. cbn [act]. rewrite Hd, Hb, He.
+    unfold steps. cbn [fold_left fst snd step set_editor disk sv ebuf dirty app].
+    rewrite (did_open_same _ _ _ d (open_differs_disk _ _ _ Hd)).
+    unfold did_open. rewrite Hfix. unfold open_differs. rewrite Hd, He. cbn [negb andb].
+    rewrite (did_open_base_text (disk w) (sv w) f t d).
+    pose proof (did_open_base_cache (disk w) (sv w) f d) as Hc.
+    destruct (did_open_base A fx (disk w) (sv w) f d) as [s2 ps]. cbn [fst snd] in *.
+    cbn [act ebuf]. rewrite aget_aset_same.
+    unfold steps. cbn [fold_left fst snd step set_editor disk sv ebuf dirty app].
+    unfold did_change. rewrite Hc, aget_aset_same.
+    rewrite (analyse_buffer_cache s2 (aset (cache (sv w)) f t) f t).
+    destruct s2 as [p2 c2 d2]. cbn [cache pj ds] in *. subst c2.
+    pose proof (analyse_buffer_cache {| pj := p2; cache := aset (cache (sv w)) f d; ds := d2 |} (aset (cache (sv w)) f d) f t) as Hr.
+    cbn [pj ds cache] in Hr.
+    destruct (analyse_buffer A {| pj := p2; cache := aset (cache (sv w)) f d; ds := d2 |} f t) as [s3 ps3].
+    cbn [fst snd] in *. injection Hr as Hr. rewrite Hr at 3.
+    rewrite !aset_aset, (frem_id f (dirty w) Hnd). reflexivity.
+  Qed.
+
+  Lemma existsb_ext_in' {X} (p q : X -> bool) l : (forall x, In x l -> p x = q x) -> existsb p l = existsb q l.
+  Proof.
+    induction l as [|x l IH]; intros H; [reflexivity|]. cbn [existsb]. rewrite (H x (or_introl eq_refl)), IH; [reflexivity|].
+    intros y Hy. apply H. right. exact Hy.
+  Qed.
+
+  (* what the didChange of a document leaves untouched *)
+  Lemma act_change_frame w f t :
+    let w2 := fst (act A fx w (AChange f t)) in
+    saved (ds (sv w2)) = saved (ds (sv w)) /\
+    (forall g, g <> f -> aget (live (ds (sv w2))) g = aget (live (ds (sv w))) g) /\
+    (forall g, g <> f -> fmem g (dirty w2) = fmem g (dirty w)) /\
+    k_stale_ref A fx w2 = k_stale_ref A fx w.
+  Proof.
+    cbn zeta. cbn [act]. destruct (aget (ebuf w) f); [|auto].
+    unfold steps. cbn [fold_left fst snd step set_editor disk sv ebuf dirty].
+    assert (Hd : forall g, g <> f -> fmem g (fadd f (dirty w)) = fmem g (dirty w)).
+    { intros g Hg. rewrite fmem_fadd. apply N.eqb_neq in Hg. rewrite Hg. reflexivity. }
+    unfold did_change. destruct (aget (cache (sv w)) f).
+    2:{ cbn [fst sv ds dirty]. auto. }
+    unfold analyse_buffer. destruct (is_nil (syn A t)).
+    - pose proof (clear_change_saved (ds (sv w)) f) as H1. pose proof (clear_change_live (ds (sv w)) f) as H2.
+      destruct (clear_change (ds (sv w)) f) as [d1 ps1]. cbn [fst] in H1, H2.
+      cbn [fst sv ds dirty mark_clean set_clean saved live].
+      split; [exact H1|]. split; [|split; [exact Hd|reflexivity]].
+      intros g Hg. rewrite H2. destruct (f =? g) eqn:E; [apply N.eqb_eq in E; congruence|reflexivity].
+    - cbn [insert_change fst sv ds dirty saved live].
+      split; [reflexivity|]. split; [|split; [exact Hd|reflexivity]].
+      intros g Hg. apply aget_aset_other. congruence.
+  Qed.
+
+  (* the class predicates of (didOpen; didChange of the same document) seen after the didOpen alone *)
+  Lemma open_with_classes w f t :
+    aget (live (ds (sv w))) f = None -> ~ In f (dirty w) ->
+    let w1 := fst (act A fx w (AOpen f)) in
+    let w2 := fst (act A fx w1 (AChange f t)) in
+    k_live_cleared A fx w w2 = false -> k_unhidden A fx w w2 = false -> k_stale_ref A fx w2 = false ->
+    k_live_cleared A fx w w1 = false /\ k_unhidden A fx w w1 = false /\ k_stale_ref A fx w1 = false.
+  Proof.
+    intros Hl Hnd w1 w2. destruct (act_change_frame w1 f t) as [Hs [Hlv [Hdt Hst]]]. fold w2 in Hs, Hlv, Hdt, Hst.
+    intros Hlc Hun Hsr. split; [|split].
+    - rewrite <- Hlc. unfold k_live_cleared. rewrite Hs. f_equal. apply existsb_ext_in'. intros g Hg.
+      assert (Hne : g <> f) by (intros ->; apply aget_in_keys in Hg; congruence).
+      unfold live_has, ahas, saved_of. rewrite Hs, (Hlv g Hne). reflexivity.
+    - rewrite <- Hun. unfold k_unhidden. f_equal. apply existsb_ext_in'. intros g Hg.
+      assert (Hne : g <> f) by (intros ->; contradiction).
+      unfold saved_of. rewrite Hs, (Hdt g Hne). reflexivity.
+    - rewrite <- Hst. exact Hsr.
+  Qed.
+
+  Lemma act_open_with_inv w v f t :
+    inv w v -> in_dir A f = true \/ (in_dir A f = false /\ fix_outside fx = true) ->
+    let w' := fst (act A fx w (AOpenWith f t)) in
+    k_live_cleared A fx w w' = false -> k_unhidden A fx w w' = false -> k_stale_ref A fx w' = false ->
+    k_open_text A fx w (AOpenWith f t) = false ->
+    inv w' (vapply v (snd (act A fx w (AOpenWith f t)))).
+  Proof.
+    intros I Hin. cbn zeta.
+    destruct (aget (disk w) f) as [d|] eqn:Edk. 2:{ intros _ _ _ _. cbn [act]. rewrite Edk. exact I. }
+    destruct (aget (ebuf w) f) as [b|] eqn:Eb. { intros _ _ _ _. cbn [act]. rewrite Edk, Eb. exact I. }
+    destruct (teqb A d t) eqn:Ete.
+    - rewrite (act_open_with_same w f t d Edk Ete). intros Hlc Hun Hst _.
+      destruct Hin as [Hd|[Hd Hfo]]; [apply act_open_inv; assumption|apply act_open_out_inv; assumption].
+    - intros Hlc Hun Hst Hot.
+      assert (Hfix : fix_didopen fx = true).
+      { unfold k_open_text in Hot. rewrite Edk, Eb, Ete in Hot. destruct (fix_didopen fx); [reflexivity|discriminate]. }
+      assert (Hnd : ~ In f (dirty w)) by (intros H; apply (i_open _ _ I) in H; congruence).
+      assert (Hlive : aget (live (ds (sv w))) f = None) by (apply (live_none_of_clean w v); assumption).
+      revert Hlc Hun Hst. rewrite (act_open_with_split w f t d Hfix Edk Eb Ete Hnd). cbn [fst snd]. intros Hlc Hun Hst.
+      destruct (open_with_classes w f t Hlive Hnd Hlc Hun Hst) as [Hlc1 [Hun1 Hst1]].
+      assert (I1 : inv (fst (act A fx w (AOpen f))) (vapply v (snd (act A fx w (AOpen f))))).
+      { destruct Hin as [Hd|[Hd Hfo]]; [apply act_open_inv; assumption|apply act_open_out_inv; assumption]. }
+      rewrite vapply_app. apply act_change_inv. exact I1.
+  Qed.
+
   (* ---------- one conformant, class-free action keeps the invariant ---------- *)
   Lemma act_inv w v a :
     inv w v -> conf_action A w a = true -> classes_step A fx w a (fst (act A fx w a)) = [] ->
     inv (fst (act A fx w a)) (vapply v (snd (act A fx w a))).
   Proof.
     intros I Hconf Hcl. apply classes_step_nil in Hcl.
-    destruct Hcl as [Hout [Hlc [Hun [Hcr [Hwd [Hst Hemp]]]]]].
+    destruct Hcl as [Hout [Hlc [Hun [Hcr [Hwd [Hst [Hemp Hot]]]]]]].
     assert (Hone : forall f, k_outside A fx (AOpen f) = false -> in_dir A f = true \/ (in_dir A f = false /\ fix_outside fx = true)).
     { intros f H. unfold k_outside, names_outside in H. cbn [action_files existsb] in H. rewrite orb_false_r in H.
       destruct (in_dir A f); [left; reflexivity|right]. destruct (fix_outside fx); [auto|discriminate]. }
-    destruct a as [f|f t|f|f|l|e].
+    destruct a as [f|f t|f|f|l|e|f t].
     - destruct (Hone f Hout) as [Hd|[Hd Hfo]]; [apply act_open_inv; assumption|apply act_open_out_inv; assumption].
     - apply act_change_inv. exact I.
     - apply act_save_inv; try assumption. intros Hb. destruct (Hone f Hout) as [Hd|[Hd Hfo]].
@@ -956,6 +1113,7 @@ Section Inv.
     - destruct (Hone f Hout) as [Hd|[Hd Hfo]]; [apply act_close_inv; assumption|apply act_close_out_inv; assumption].
     - apply act_watched_inv; assumption.
     - discriminate Hconf.
+    - apply act_open_with_inv; try assumption. apply Hone. exact Hout.
   Qed.
 
   Lemma history_inv h : forall w v,
@@ -1084,38 +1242,45 @@ Proof.
   unfold k_live_cleared, k_close_revert, k_unhidden, k_watched_dirty, k_stale_ref. rewrite H1, H2, H3, H5, H6. cbn [negb andb].
   repeat split.
   unfold k_empty_shortcut, empty_hit, empty_hit_p. rewrite H4. cbn [negb andb].
-  destruct a as [f|f t|f|f|l|e]; try reflexivity.
+  destruct a as [f|f t|f|f|l|e|f t]; try reflexivity.
   - destruct (aget (ebuf w) f); reflexivity.
   - induction l as [|i l IH]; [reflexivity|]. cbn [existsb]. rewrite IH. destruct i; reflexivity.
 Qed.
 
-(* hence the only class such a history can meet is outside_file *)
+(* hence the only classes such a history can meet are outside_file and open_text *)
 Lemma repaired_classes_step (A : analysis) (fx : fixes) (w w' : world A) (a : action A) : six_on fx = true ->
-  classes_step A fx w a w' = if k_outside A fx a then [1] else [].
+  classes_step A fx w a w' = (if k_outside A fx a then [1] else []) ++ (if k_open_text A fx w a then [8] else []).
 Proof.
   intros H. destruct (repaired_classes_gone A fx w w' a H) as [H1 [H2 [H3 [H4 [H5 H6]]]]].
   unfold classes_step. rewrite H1, H2, H3, H4, H5, H6. destruct (k_outside A fx a); reflexivity.
 Qed.
 
 Lemma repaired_scan (A : analysis) (fx : fixes) cf (h : list (action A)) : six_on fx = true ->
-  fix_outside fx = true \/ inside_only A h = true -> forall w, snd (scan_history A fx cf w h) = [].
+  fix_outside fx = true \/ inside_only A h = true -> fix_didopen fx = true \/ opens_disk_text A h = true ->
+  forall w, snd (scan_history A fx cf w h) = [].
 Proof.
-  intros H6. induction h as [|a h IH]; intros Hin w; [reflexivity|]. cbn [scan_history].
+  intros H6. induction h as [|a h IH]; intros Hin Hop w; [reflexivity|]. cbn [scan_history].
   assert (Hin' : fix_outside fx = true \/ inside_only A h = true).
   { destruct Hin as [Hin|Hin]; [left; exact Hin|right]. cbn [inside_only forallb] in Hin. apply andb_true_iff in Hin. apply Hin. }
+  assert (Hop' : fix_didopen fx = true \/ opens_disk_text A h = true).
+  { destruct Hop as [Hop|Hop]; [left; exact Hop|right]. cbn [opens_disk_text forallb] in Hop. apply andb_true_iff in Hop. apply Hop. }
   assert (Ha : k_outside A fx a = false).
   { unfold k_outside. destruct Hin as [Hin|Hin]; [rewrite Hin; reflexivity|].
     cbn [inside_only forallb] in Hin. apply andb_true_iff in Hin as [Ha _]. apply negb_true_iff in Ha. rewrite Ha. apply andb_false_r. }
-  specialize (IH Hin' (fst (act A fx w a))).
+  assert (Hb : k_open_text A fx w a = false).
+  { unfold k_open_text. destruct Hop as [Hop|Hop]; [rewrite Hop; reflexivity|].
+    cbn [opens_disk_text forallb] in Hop. apply andb_true_iff in Hop as [Hb _].
+    destruct a; try apply andb_false_r. discriminate Hb. }
+  specialize (IH Hin' Hop' (fst (act A fx w a))).
   destruct (scan_history A fx cf (fst (act A fx w a)) h) as [c ks]. cbn [snd] in *. subst ks.
-  rewrite (repaired_classes_step A fx _ _ _ H6), Ha. reflexivity.
+  rewrite (repaired_classes_step A fx _ _ _ H6), Ha, Hb. reflexivity.
 Qed.
 
 Lemma repaired_guard (A : analysis) (fx : fixes) (dk : amap (text A)) (h : list (action A)) : six_on fx = true ->
-  fix_outside fx = true \/ inside_only A h = true ->
+  fix_outside fx = true \/ inside_only A h = true -> fix_didopen fx = true \/ opens_disk_text A h = true ->
   conformant A fx dk h = true -> guard A fx dk h = true.
 Proof.
-  intros H6 Hin Hc. unfold guard, classes. rewrite Hc, (repaired_scan A fx _ h H6 Hin). reflexivity.
+  intros H6 Hin Hop Hc. unfold guard, classes. rewrite Hc, (repaired_scan A fx _ h H6 Hin Hop). reflexivity.
 Qed.
 
 (* when no document outside the workspace is open, fresh_view_open is the view of a plain server start *)
@@ -1129,10 +1294,10 @@ Qed.
 Lemma member_plain_old (A : analysis) (fx : fixes) (w : world A) : fix_outside fx = false -> forall g, member A fx w g = in_dir A g.
 Proof. intros H g. unfold member. rewrite H. apply orb_false_r. Qed.
 
-(* ---------- the deployed model: all seven repairs ---------- *)
+(* ---------- the deployed model: all eight repairs ---------- *)
 Lemma deployed_guard (A : analysis) (dk : amap (text A)) (h : list (action A)) :
   conformant A deployed dk h = true -> guard A deployed dk h = true.
-Proof. intros Hc. apply repaired_guard; [reflexivity|left; reflexivity|exact Hc]. Qed.
+Proof. intros Hc. apply repaired_guard; [reflexivity|left; reflexivity|left; reflexivity|exact Hc]. Qed.
 
 Theorem deployed_view (A : analysis) (HA : analysis_ok A) (dk : amap (text A)) (h : list (action A)) :
   conformant A deployed dk h = true ->
@@ -1176,4 +1341,38 @@ Proof.
   assert (Hd : dirty (fst (run A deployed dk (map (@AOpen A) l))) = []).
   { unfold run. apply opens_dirty. unfold init_world. destruct (init_server A deployed dk). reflexivity. }
   rewrite Hd in H. exact H.
+Qed.
+
+(* ---------- a document opened with a text that is not the file's text has unsaved edits from that moment on: the client
+              is shown the syntax errors of the opened text if it has any, else the non-syntax diagnostics of the fresh
+              start (instance of the full theorem for a history that ends with such a didOpen) ---------- *)
+Lemma run_snoc (A : analysis) (fx : fixes) (dk : amap (text A)) (h : list (action A)) (a : action A) :
+  run A fx dk (h ++ [a]) =
+  (fst (act A fx (fst (run A fx dk h)) a), snd (run A fx dk h) ++ snd (act A fx (fst (run A fx dk h)) a)).
+Proof.
+  unfold run, run_from. rewrite fold_left_app. cbn [fold_left].
+  destruct (act A fx (fst (fold_left _ h (init_world A fx dk))) a). reflexivity.
+Qed.
+
+Lemma open_with_unsaved (A : analysis) (fx : fixes) (w : world A) f t d :
+  aget (disk w) f = Some d -> aget (ebuf w) f = None -> teqb A d t = false ->
+  In f (dirty (fst (act A fx w (AOpenWith f t)))) /\ aget (ebuf (fst (act A fx w (AOpenWith f t)))) f = Some t.
+Proof.
+  intros Hd Hb He. cbn [act]. rewrite Hd, Hb, He. unfold steps. cbn [fold_left fst snd step set_editor disk sv ebuf dirty].
+  destruct (did_open A fx (disk w) (sv w) f t). cbn [fst dirty ebuf]. split; [apply fadd_in; left; reflexivity|apply aget_aset_same].
+Qed.
+
+Theorem open_text_view (A : analysis) (HA : analysis_ok A) (dk : amap (text A)) (h : list (action A)) (f : file) (t d : text A) :
+  conformant A deployed dk (h ++ [AOpenWith f t]) = true ->
+  aget (disk (fst (run A deployed dk h))) f = Some d -> aget (ebuf (fst (run A deployed dk h))) f = None -> teqb A d t = false ->
+  let r := run A deployed dk (h ++ [AOpenWith f t]) in
+  In f (dirty (fst r)) /\
+  Permutation (view (snd r) f) (if is_nil (syn A t) then nonsyn (fresh_view_open A deployed (fst r) f) else syn A t).
+Proof.
+  intros Hc Hd Hb He. cbn zeta.
+  pose proof (open_with_unsaved A deployed _ f t d Hd Hb He) as [H1 H2].
+  assert (Hdty : In f (dirty (fst (run A deployed dk (h ++ [AOpenWith f t]))))) by (rewrite run_snoc; exact H1).
+  split; [exact Hdty|].
+  destruct (unsaved_view A deployed HA dk _ f (deployed_guard A dk _ Hc) Hdty) as [b [Hb' Hp]].
+  rewrite run_snoc in Hb'. cbn [fst] in Hb'. rewrite H2 in Hb'. injection Hb' as <-. exact Hp.
 Qed.
